@@ -192,10 +192,11 @@ theorem proxyFinish_ok (env : Env) (rk : String → Nat) (hE : EnvWF env rk) (si
     (hn : sig.params.length + cpArgTagOffset ≤ 256)
     (hty : ∀ p ∈ sig.params, TyOK env rk (env.length + 1) p.ty)
     (hretTy : ∀ t, sig.ret = some t → TyOK env rk (env.length + 1) t)
-    (hfresh : OutsFresh env sig args) (hnil : ∀ m ∈ opts, m ≠ none) :
+    (hfresh : OutsFresh env sig args) :
     proxyFinish env sig args opts resp =
-      .returned none ⟨normRet env sig ret, normOuts env sig outs,
-        (copiedMaps opts resp.context resp.status).1, (copiedMaps opts resp.context resp.status).2⟩ := by
+      match copyBackAll opts resp.context resp.status with
+      | .error site => .panicked site
+      | .ok (c, s) => .returned none ⟨normRet env sig ret, normOuts env sig outs, c, s⟩ := by
   have hout := outFieldsFrom_ok env rk sig.params 0 (by omega) hty
   have hfields : ∀ f ∈ rspFields sig, ArgFieldOK env rk f := by
     intro f hf
@@ -238,14 +239,21 @@ theorem proxyFinish_ok (env : Env) (rk : String → Nat) (hE : EnvWF env rk) (si
       | none => simp [hsr] at hshape
       | some v => simp [rspFields, retFields, hsr, normRet, normOuts, normMembers]
   rw [hvals.1, hvals.2]
-  -- copy-back into non-nil maps
+  cases copyBackAll opts resp.context resp.status with
+  | error site => rfl
+  | ok p => rfl
+
+/-- copy-back into non-nil maps succeeds -/
+theorem copyBackAll_nonnil (opts : List (Option StrMap)) (rctx rst : StrMap)
+    (hnil : ∀ m ∈ opts, m ≠ none) :
+    copyBackAll opts rctx rst = .ok (copiedMaps opts rctx rst) := by
   match opts, hnil with
-  | [], _ => simp [copiedMaps, optsMaps]
+  | [], _ => simp [copyBackAll, copiedMaps]
   | [none], h => exact absurd rfl (h none (by simp))
-  | [some c], _ => simp [copiedMaps, optsMaps, copyBack]
+  | [some c], _ => simp [copyBackAll, copiedMaps, copyBack]
   | [none, _], h => exact absurd rfl (h none (by simp))
   | [some _, none], h => exact absurd rfl (h none (by simp))
-  | [some c, some s], _ => simp [copiedMaps, optsMaps, copyBack]
-  | _ :: _ :: _ :: _, _ => simp [copiedMaps, optsMaps]
+  | [some c, some s], _ => simp [copyBackAll, copiedMaps, copyBack]
+  | _ :: _ :: _ :: _, _ => simp [copyBackAll, copiedMaps]
 
 end Tars.CallPath
